@@ -42,3 +42,18 @@ Theorem triangular_factored_inverse : forall n L Li s, s * s == 1 -> is_inv n L 
   is_inv n (mscal s (mmul n L (mtr L))) (mscal s (mmul n (mtr Li) Li)).
 Proof. exact trifactor_inverse. Qed.
 Print Assumptions triangular_factored_inverse.
+
+(* log|det|: which |det| identity each class's log_abs_det formula uses, as regenerated from src/mici/matrices.py by translator T9;
+   the identities are proved for all sizes over any real field in Props/C10det.v / Lib/Det.v (MathComp).  A changed formula changes
+   this table (or makes T9 fail closed) and the dense-reference search then looks for the matrix on which log_abs_det is wrong. *)
+Require Import Mici.Model.LogDet Mici.Gen.LogDetGen.
+From Coq Require Import String List.
+Import ListNotations.
+Open Scope string_scope.
+Theorem logdet_formulas_use_the_proved_identities :
+  gen_logdet = [("SquareMatrixProduct", LProduct); ("SymmetricMatrix", LEigen); ("IdentityMatrix", LZero); ("ScaledIdentityMatrix", LScaled);
+                ("TriangularMatrix", LDiagonalOfTriangular); ("InverseTriangularMatrix", LNegInverse); ("_BaseTriangularFactoredDefiniteMatrix", LTwiceFactor);
+                ("DenseSquareMatrix", LDiagonalOfLU); ("InverseLUFactoredSquareMatrix", LNegDiagonalOfInverseLU); ("OrthogonalMatrix", LZero);
+                ("ScaledOrthogonalMatrix", LScaled); ("SquareBlockDiagonalMatrix", LBlocks); ("SquareLowRankUpdateMatrix", LLowRank)].
+Proof. reflexivity. Qed.
+Print Assumptions logdet_formulas_use_the_proved_identities.
